@@ -446,6 +446,14 @@ void bn_rec_tnaf(int8_t *tnaf, size_t *len, const bn_t k, int8_t u, size_t m,
 		return;
 	}
 
+	if (bn_bits(k) > m) {
+		/* The partial reduction only bounds the length of the expansion (by a
+		 * few digits more than m, what callers reserve) for scalars below 2^m. */
+		*len = 0;
+		RLC_THROW(ERR_NO_VALID);
+		return;
+	}
+
 	RLC_TRY {
 		bn_new(r0);
 		bn_new(r1);
@@ -463,9 +471,6 @@ void bn_rec_tnaf(int8_t *tnaf, size_t *len, const bn_t k, int8_t u, size_t m,
 		i = 0;
 		while (!bn_is_zero(r0) || !bn_is_zero(r1)) {
 			while ((r0->dp[0] & 1) == 0) {
-				if ((size_t)i >= *len) {
-					RLC_THROW(ERR_NO_BUFFER);
-				}
 				tnaf[i++] = 0;
 				/* tmp = r0. */
 				bn_hlv(tmp, r0);
@@ -480,10 +485,6 @@ void bn_rec_tnaf(int8_t *tnaf, size_t *len, const bn_t k, int8_t u, size_t m,
 				r1->sign = tmp->sign ^ 1;
 			}
 			/* If r0 is odd. */
-			if ((size_t)i >= *len) {
-				/* A scalar not below the group order recodes longer than m. */
-				RLC_THROW(ERR_NO_BUFFER);
-			}
 			if (w == 2) {
 				t0 = r0->dp[0];
 				if (bn_sign(r0) == RLC_NEG) {
